@@ -28,6 +28,13 @@ DEVINFO = {
     "DevMarkSeenBeforeVerify": dict(prop="C29", inv="NeverSuppressed", site="flood.markSleepCmdSeen", inst="flood"),
     "DevCacheForgetsInsideWindow": dict(prop="C29", inv="AtMostOnce", site="flood.cleanupSleepCmdCache", inst="flood"),
     "DevSizeEviction": dict(prop="C29", inv="AtMostOnce", site="flood.cleanupSleepCmdCache", inst="flood"),
+    # pending wake stored before verification: the forged wake is forwarded to the next peer that connects
+    "DevPendingBeforeVerify": dict(prop="C28", inv="OnlyAuthenticActs", site="flood.HandleWakeCommand", inst="aux"),
+    # the signing key reaches the flooder only with sleep mode enabled: a relay accepts and forwards forged commands
+    "DevRelayUnverified": dict(prop="C28", inv="OnlyAuthenticActs", site="agent.initComponents", inst="agent"),
+    # cleanup in two critical sections: needs Receive CONCURRENT with cleanup(); the sequential replays cannot take
+    # this step, the concurrent driver (TestZZVSleepCmdConc) looks for its consequence on the real code
+    "DevCleanupLosesConcurrentInsert": dict(prop="C29", inv="AtMostOnce", site="flood.cleanup", inst="conc", replay=False),
 }
 DEVS = list(DEVINFO)
 
@@ -50,7 +57,14 @@ def instances(ctx):
         agent = dict(maxclock=0, w=2, ttl=2, cap=100, genuine={"a": 0, "b": 2, "c": 3, "d": -3},
                      forged=["f"], local=[], keymodes=[True],
                      paths=["sleep", "wake", "qsleep", "qwake"], peers=["p1", "p2"], newpeers=["n1"], maint=False)
-    return {"flood": flood, "aux": aux, "agent": agent}
+    agent["sleepmodes"] = [True, False]     # a relay (sleep mode off) with a signing key still has to verify
+    # TLC only: cleanup() as CleanupScan / CleanupSwap with commands handled in between
+    conc = dict(maxclock=1, w=2, ttl=2, cap=1, genuine={"a": 0, "b": 1}, forged=["f"], local=[], keymodes=[True],
+                paths=["sleep", "wake"], peers=["p1", "p2"], newpeers=[], maint=True, split=True)
+    return {"flood": flood, "aux": aux, "agent": agent, "conc": conc}
+
+
+REPLAYED = ("flood", "aux", "agent")      # instances bound to the real code by replay
 
 
 def trace_instance(ctx):
@@ -70,11 +84,14 @@ def _set(xs):
 
 def _constants(inst, dev, onedev, emit):
     return ("CONSTANTS MaxClock = %d W = %d TTL = %d Cap = %d\n Genuine <- MCGenuine\n ForgedIds = %s LocalIds = %s\n"
-            " KeyModes = {%s}\n Paths = %s Peers = %s NewPeers = %s Maintenance = %s\n Dev = %s OneDev = %s Emit = %s\n" % (
+            " KeyModes = {%s} SleepModes = {%s}\n Paths = %s Peers = %s NewPeers = %s Maintenance = %s SplitCleanup = %s\n"
+            " Dev = %s OneDev = %s Emit = %s\n" % (
                 inst["maxclock"], inst["w"], inst["ttl"], inst["cap"], _set(inst["forged"]), _set(inst["local"]),
-                ",".join("TRUE" if k else "FALSE" for k in inst["keymodes"]), _set(inst["paths"]), _set(inst["peers"]),
-                _set(inst["newpeers"]), "TRUE" if inst["maint"] else "FALSE", _set(dev), "TRUE" if onedev else "FALSE",
-                "TRUE" if emit else "FALSE"))
+                ",".join("TRUE" if k else "FALSE" for k in inst["keymodes"]),
+                ",".join("TRUE" if k else "FALSE" for k in inst.get("sleepmodes", [True])),
+                _set(inst["paths"]), _set(inst["peers"]),
+                _set(inst["newpeers"]), "TRUE" if inst["maint"] else "FALSE", "TRUE" if inst.get("split") else "FALSE",
+                _set(dev), "TRUE" if onedev else "FALSE", "TRUE" if emit else "FALSE"))
 
 
 def _mcmodule(name, base, inst):
@@ -123,7 +140,7 @@ class Par:
 
 
 def proj(st):
-    return {k: st[k] for k in ("key", "clock", "cache", "st", "pend")}
+    return {k: st[k] for k in ("key", "sleepon", "clock", "cache", "st", "pend")}
 
 
 def strip(e):
@@ -187,9 +204,10 @@ def model(ctx, insts):
     for name, inst in insts.items():
         par.go("ideal:" + name, ctx.tlc, MODULE, "MC.cfg", files=mcfiles(inst, emit=False), workers=w,
                name="ideal-" + name, heap=heap)
-        par.go("rel:" + name, ctx.tlc, MODULE, "MC.cfg",
-               files=mcfiles(inst, dev=DEVS, onedev=True, invs="", props="", view="viewCore"), workers=w,
-               name="rel-" + name, heap=heap)
+        if name in REPLAYED:
+            par.go("rel:" + name, ctx.tlc, MODULE, "MC.cfg",
+                   files=mcfiles(inst, dev=DEVS, onedev=True, invs="", props="", view="viewCore"), workers=w,
+                   name="rel-" + name, heap=heap)
     for d, info in DEVINFO.items():
         par.go("cex:" + d, ctx.tlc, MODULE, "MC.cfg",
                files=mcfiles(insts[info["inst"]], dev=[d], emit=False, invs=info["inv"], props=""), workers=1,
@@ -201,12 +219,14 @@ def model(ctx, insts):
         if r.violated:
             raise vf.Infra("ideal SleepCmd spec (%s instance) violates %s (specification error)" % (name, r.violated))
         res["ideal"][name] = r
+        if name not in REPLAYED:
+            continue
         res["rel"][name] = Rel(out["rel:" + name])
         if not res["rel"][name].edges:
             raise vf.Infra("no edges emitted for instance " + name)
     # non-vacuity: every action / outcome class of the ideal design is taken in some instance
     seen = set()
-    for name in insts:
+    for name in REPLAYED:
         seen |= set(res["rel"][name].classes)
     need = ["Receive:%s:%s" % (p, r) for p in ("sleep", "wake", "qsleep", "qwake") for r in ("accept", "invalid", "dup", "loop")] + \
            ["Tick", "Cleanup:removes", "Cleanup:nothing", "PeerConnected:forward", "PeerConnected:none",
@@ -502,7 +522,7 @@ def traces(ctx, pid, stats):
         stats["nokey"].append("trace validation: event #%d %s" % (hw, json.dumps(ev)))
         return info
     explained = None
-    for devs in ([d] for d in DEVS if DEVINFO[d]["inst"] == "flood"):
+    for devs in ([d] for d in DEVS if DEVINFO[d]["inst"] in ("flood", "aux") and DEVINFO[d].get("replay", True)):
         w = validate(ctx, inst, out, dev=devs, invs="", name="trace-" + devs[0])
         if w["accepted"] or (w["hw"] or 0) > hw:
             explained = devs[0]
@@ -512,9 +532,10 @@ def traces(ctx, pid, stats):
         owner = DEVINFO[explained]["prop"]
     else:
         a = ev or {}
-        eff = a.get("res") == "accept"
+        prev = events[hw - 2] if hw >= 2 else {}
+        eff = a.get("res") == "accept" or (a.get("st", {}).get("pend") != prev.get("st", {}).get("pend", a.get("st", {}).get("pend")))
         auth = a.get("sig") == "valid" and abs(a.get("st", {}).get("clock", 0) - a.get("ts", 0)) <= inst["w"]
-        owner = "C28" if (a.get("ev") == "Receive" and eff and not auth) else "C29"
+        owner = "C28" if (a.get("ev") == "PeerConnected" or (a.get("ev") == "Receive" and eff and not auth)) else "C29"
         key = "SleepCmd:trace-%s:%s:%s" % ("invariant-" + v["violated"] if v["violated"] else "rejected", a.get("ev"), a.get("res"))
     stats["by_key"][key] = stats["by_key"].get(key, 0) + 1
     if owner == pid:     # reported by run() after the replays (their artefacts are the shorter histories)
@@ -535,6 +556,29 @@ def fmt_ev(e):
     if e["ev"] == "PeerConnected":
         return "PeerConnected(%s)=>%s" % (e["p"], e["res"])
     return e["ev"]
+
+
+def concurrent(ctx):
+    """Receive concurrent with cleanup() on a real Flooder with a large cache (what SplitCleanup models): fresh valid
+    commands are delivered and immediately replayed while goroutines loop cleanup(); the oracle is the property itself
+    (each command acted on at most once, and a fresh command is accepted)."""
+    q = ctx.quick()
+    # a moderate cache: many cleanup() cycles during the deliveries (every cycle has one scan/swap boundary), each scan
+    # still long enough for the workers' deliveries to arrive inside it
+    env = {"ZZV_FILL": 5000 if q else 20000, "ZZV_CMDS": 2000 if q else 12000, "ZZV_WORKERS": 4, "ZZV_CLEANERS": 1 if q else 2}
+    r = ctx.gotest("flood", HF_FLOOD, "^TestZZVSleepCmdConc$", env=env, timeout=900)
+    summ = r.of("summary")
+    if not summ:
+        raise vf.Infra("concurrent driver produced no summary:\n" + r.out[-3000:])
+    summ = summ[0]
+    if summ["overlapped"] < summ["commands"] // 10:
+        raise vf.Infra("concurrent driver: only %d of %d deliveries overlapped a cleanup() call (no concurrency reached)"
+                       % (summ["overlapped"], summ["commands"]))
+    summ["cases"] = r.of("twice")
+    summ["rejected_cases"] = r.of("fresh-rejected")
+    ctx.log("concurrent driver: %d commands, %d deliveries, %d cleanups over %d entries, %d overlapped, %d acted on twice" % (
+        summ["commands"], summ["deliveries"], summ["cleanups"], summ["cache_entries"], summ["overlapped"], summ["twice"]))
+    return summ
 
 
 # --------------------------------------------------------------------------------------------- classification
@@ -639,8 +683,13 @@ def judge(ctx, pid, level, inst, paths, recs, devrel, stats, pr=proj, cex=False,
                 owner = "C29" if authentic(a, s, inst) else "C28"
             key = "SleepCmd:%s:%s" % (dev, DEVINFO[d0]["site"])
         else:
-            effect = (rec.get("real_res", "").startswith("accept") or rec.get("real_fwd") or rec["real_t"]["st"] != s["st"])
-            owner = "C28" if (a.get("act") == "Receive" and not authentic(a, s, inst) and effect) else "C29"
+            # C28: a frame that is not authentic has an effect on the sleep state or on what is / will be forwarded
+            # (the pending wake kept for new peers); a pending-wake forward that differs.  Everything else
+            # (cache bookkeeping, handling of authentic commands) is C29's subject.
+            effect = (rec.get("real_res", "").startswith("accept") or rec.get("real_fwd") or rec["real_t"]["st"] != s["st"]
+                      or ("pend" in rec["real_t"] and rec["real_t"]["pend"] != step["t"]["pend"]))
+            owner = "C28" if (a.get("act") == "PeerConnected" or
+                              (a.get("act") == "Receive" and not authentic(a, s, inst) and effect)) else "C29"
             key = "SleepCmd:unexplained:%s:%s:%s" % (level, a.get("act"), rec.get("real_res"))
         stats["by_key"][key] = stats["by_key"].get(key, 0) + 1
         if owner == pid:
@@ -666,11 +715,11 @@ def run(ctx, pid):
     m = model(ctx, insts)
     stats = {"alts": 0, "mismatches": 0, "by_key": {}, "cex_reproduced": {}, "nokey": [], "cut": {}}
     plans = {}
-    for name in insts:
+    for name in REPLAYED:
         paths, nnodes, nedges, nnondet = cover(m["rel"][name].edges)
         reps = 8
         for d, info in DEVINFO.items():
-            if (info["inst"] == "agent") == (name == "agent") and name != "aux":
+            if info["inst"] == name and info.get("replay", True):
                 for k in range(reps if "Cleanup" in [s["a"]["act"] for s in m["cex"][d]["steps"]] else 2):
                     c = dict(m["cex"][d])
                     c["label"] = "cex:%s#%d" % (d, k)
@@ -683,10 +732,11 @@ def run(ctx, pid):
     par.go("aux", replay_flood, ctx, "aux", insts["aux"], plans["aux"]["paths"])
     par.go("agent", replay_agent, ctx, "agent", insts["agent"], plans["agent"]["paths"])
     par.go("trace", traces, ctx, pid, stats)
+    par.go("conc", concurrent, ctx)
     out = par.join()
     steps = 0
     for cex in (True, False):
-        for name in ("flood", "aux", "agent"):
+        for name in REPLAYED:
             recs = out[name][0]
             steps += 0 if cex else out[name][1]
             judge(ctx, pid, "agent" if name == "agent" else "flooder", insts[name], plans[name]["paths"], recs,
@@ -702,6 +752,23 @@ def run(ctx, pid):
     del stats["cut"]
     if out["trace"].get("finding"):
         ctx.finding(*out["trace"]["finding"])
+    conc = out["conc"]
+    stats["concurrent"] = {k: conc[k] for k in ("commands", "deliveries", "cleanups", "overlapped", "twice", "fresh_rejected",
+                                                "cache_entries", "wall_ms")}
+    if conc["twice"]:
+        d = "DevCleanupLosesConcurrentInsert"
+        stats["by_key"]["SleepCmd:%s:%s" % (d, DEVINFO[d]["site"])] = conc["twice"]
+        if pid == "C29":
+            ctx.finding("SleepCmd:%s:%s" % (d, DEVINFO[d]["site"]),
+                        "%d of %d validly signed commands delivered while cleanup() was running concurrently were acted on "
+                        "TWICE (accepted, replayed at once, accepted again); first case: %s" % (
+                            conc["twice"], conc["commands"], json.dumps(conc["cases"][0])), {"cases": conc["cases"][:10]})
+    if conc["fresh_rejected"]:
+        stats["by_key"]["SleepCmd:concurrent:fresh-command-refused"] = conc["fresh_rejected"]
+        if pid == "C29":
+            ctx.finding("SleepCmd:concurrent:fresh-command-refused",
+                        "%d fresh validly signed commands were refused while cleanup() was running concurrently; first: %s"
+                        % (conc["fresh_rejected"], json.dumps(conc["rejected_cases"][0])), {"cases": conc["rejected_cases"][:10]})
     if stats["nokey"] and not stats["by_key"] and not stats["cex_reproduced"]:
         raise vf.Infra("the model does not describe the code in unsigned mode (%d replay mismatches, no verdict possible): %s"
                        % (len(stats["nokey"]), stats["nokey"][0]))
@@ -719,6 +786,7 @@ def check(ctx, pid):
     npaths = sum(len(p["paths"]) for p in plans.values()) + tr["summary"]["traces"]
     ti = tr["inst"]
     states = sum(m["ideal"][n].distinct for n in insts)
+    rins = {n: insts[n] for n in REPLAYED}
     edges = sum(p["edges"] for p in plans.values())
     sample = plans["flood"]["paths"][len(plans["flood"]["paths"]) // 3]
     asample = plans["agent"]["paths"][0]
@@ -727,9 +795,12 @@ def check(ctx, pid):
         assumptions=[
             "Ed25519 is unforgeable: forged frames are zero signatures, random bytes, signatures of another key or genuine "
             "signatures transplanted onto other bytes",
-            "bounded model: " + "; ".join("%s: clock 0..%d, W=%d, TTL=%d, Cap=%d, genuine %s, forged ids %s, key modes %s, paths %s"
+            "bounded model: " + "; ".join("%s: clock 0..%d, W=%d, TTL=%d, Cap=%d, genuine %s, forged ids %s, key modes %s, "
+                                          "sleep modes %s, paths %s"
                                           % (n, i["maxclock"], i["w"], i["ttl"], i["cap"], i["genuine"], i["forged"],
-                                             i["keymodes"], i["paths"]) for n, i in insts.items()),
+                                             i["keymodes"], i.get("sleepmodes", [True]), i["paths"]) for n, i in insts.items()),
+            "concurrency of command handling with cleanup() is model-checked on the split-cleanup instance and sampled on "
+            "the real Flooder by the Go scheduler (concurrent driver), not enumerated",
             "one model clock unit = VERIF_SLEEPCMD_UNIT_MS (default 3000 ms) of real time on the Flooder, window / TTL "
             "configured with half a unit of slack; window boundaries are not probed",
             "whole-agent replay: one clock value (default 5 min window/TTL of the agent's Flooder), the Flooder's cache is "
@@ -744,8 +815,12 @@ def check(ctx, pid):
                         "paths behind such a step are tried 3 times and counted as lost when every try took another branch",
         replayed_steps=steps, replayed_paths={n: len(p["paths"]) for n, p in plans.items()},
         model={n: {"generated": m["ideal"][n].generated, "distinct": m["ideal"][n].distinct, "edges": plans[n]["edges"],
-                   "nodes": plans[n]["nodes"], "nondeterministic_steps": plans[n]["nondet"]} for n in insts},
-        action_coverage={n: m["rel"][n].classes for n in insts},
+                   "nodes": plans[n]["nodes"], "nondeterministic_steps": plans[n]["nondet"]} for n in rins},
+        split_cleanup_model={"generated": m["ideal"]["conc"].generated, "distinct": m["ideal"]["conc"].distinct,
+                             "constants": "clock 0..%d, Cap=%d, genuine %s, cleanup() as CleanupScan/CleanupSwap" % (
+                                 insts["conc"]["maxclock"], insts["conc"]["cap"], insts["conc"]["genuine"])},
+        concurrent_driver=stats["concurrent"],
+        action_coverage={n: m["rel"][n].classes for n in rins},
         deviations_caught=m["caught"], counterexamples_reproduced_on_code=stats["cex_reproduced"],
         trace_validation=dict(stats["trace"], constants="clock 0..%d, Cap=%d, genuine %s, forged %s, peers %s" % (
             ti["maxclock"], ti["cap"], ti["genuine"], ti["forged"], ti["peers"])),
